@@ -3,7 +3,6 @@ usage: PYTHONPATH=/repo /venv/bin/python findings/H21_real.py <psutil 0|1> <tria
 prints, per forced shutdown: children alive at the call, survivors among them (expected 0), survivors forked during the sweep."""
 import sys
 sys.argv = [sys.argv[0], "forkstorm", sys.argv[2] if len(sys.argv) > 2 else "2", sys.argv[1] if len(sys.argv) > 1 else "0", sys.argv[3] if len(sys.argv) > 3 else "0.02"]
-
 import json, os, signal, subprocess, sys, time, warnings
 warnings.simplefilter("ignore")
 
@@ -245,6 +244,48 @@ def forkstorm(d, trials, use_psutil, delay):
             th.join(15)
     return {"trials": out, "psutil": U.psutil is not None, "delay": delay}
 
+def sleeper(t):
+    time.sleep(t); return t
+
+def globaljoin(task_s):
+    """thread A is inside ex1.shutdown(wait=True) (its task needs task_s more seconds); the main thread then calls
+    ex2.shutdown(kill_workers=True): when are ex2's workers dead and its future failed (effect), when does the call return?"""
+    import threading
+    from loky import ProcessPoolExecutor
+    ex1 = ProcessPoolExecutor(1); f1 = ex1.submit(sleeper, task_s)
+    ex2 = ProcessPoolExecutor(1); f2 = ex2.submit(sleeper, 600)
+    time.sleep(0.8)
+    pids2 = list(ex2._processes)
+    tha = threading.Thread(target=lambda: ex1.shutdown(wait=True), daemon=True); tha.start()
+    time.sleep(0.3)
+    eff = {}
+    def watch(t0):
+        while time.time() - t0 < 30:
+            if "future" not in eff and f2.done():
+                eff["future"] = round(time.time() - t0, 2)
+            if "workers" not in eff and not any(alive(p) for p in pids2):
+                eff["workers"] = round(time.time() - t0, 2)
+            if len(eff) == 2:
+                return
+            time.sleep(0.01)
+    t0 = time.time()
+    thw = threading.Thread(target=watch, args=(t0,), daemon=True); thw.start()
+    thb = threading.Thread(target=lambda: ex2.shutdown(kill_workers=True), daemon=True); thb.start()
+    thb.join(30)
+    call_s = round(time.time() - t0, 2) if not thb.is_alive() else None
+    thw.join(5); tha.join(30)
+    try:
+        outcome = type(f2.exception(0)).__name__
+    except BaseException as e:
+        outcome = "unresolved:" + type(e).__name__
+    for p in pids2 + list(getattr(ex1, "_processes", None) or []):
+        try:
+            os.kill(p, signal.SIGKILL)
+        except OSError:
+            pass
+    return {"other_task_s": task_s, "call_returned_after_s": call_s, "future_failed_after_s": eff.get("future"), "workers_dead_after_s": eff.get("workers"),
+            "future_outcome": outcome, "other_result": f1.result(5) if f1.done() else None}
+
 def churn_death(trials):
     """a pool breaks (one worker kills itself) while the other worker's process tree keeps changing: everybody must be killed and reaped"""
     from loky import ProcessPoolExecutor
@@ -286,6 +327,8 @@ if __name__ == "__main__":
         out = churn_death(int(sys.argv[2]))
     elif mode == "churn":
         out = churn(int(sys.argv[2]), sys.argv[3] == "1")
+    elif mode == "globaljoin":
+        out = globaljoin(float(sys.argv[2]))
     elif mode == "forkstorm":
         out = forkstorm(d, int(sys.argv[2]), sys.argv[3] == "1", float(sys.argv[4]))
     elif mode == "forced":
